@@ -108,6 +108,35 @@ def case_percell(ctx, res, p):
         if sharp and dvo > tol:
             res.oracle_fail("'fixed' with a per-cell sigma vector depends on the order of the landmarks", p,
                             detail={"rel": dvo, "tol": float(tol)}, signature=SIG)
+    # the propagated input noise agrees too: mean_covariance = J D J^T with J the linear map from the values to the mean,
+    # and J_fixed = J_full + O(jitter) (same weights up to the gap above)
+    try:
+        efu = m.FunctionEstimator(gp_type="full", n_landmarks=0, predictor_with_uncertainty=True, **kw)
+        efu.fit(X, Y)
+        exu = m.FunctionEstimator(gp_type="fixed", landmarks=X[perm], predictor_with_uncertainty=True, **kw)
+        exu.fit(X, Y)
+        mf = np.asarray(efu.predict.mean_covariance(Xq, diag=False), float)
+        mx = np.asarray(exu.predict.mean_covariance(Xq, diag=False), float)
+    except Exception as e:
+        res.oracle_fail(f"FunctionEstimator with uncertainty and a per-cell sigma vector raised {exc_class(e)}: {str(e)[:100]}", p,
+                        signature=SIG + "-uncertainty")
+        return
+    Jf = Kq @ np.linalg.inv(K + np.diag(D))
+    Jd = Kq @ np.linalg.solve(M, K / D[None, :])
+    # (the full family propagates the stated sigma_i^2, the inducing-point family the floored variances max(sigma_i^2, jitter)
+    # of its whitened problem: they differ by at most the jitter per cell)
+    ref_f, ref_d = (Jf * (sg ** 2)[None, :]) @ Jf.T, (Jd * D[None, :]) @ Jd.T
+    msc = max(float(np.max(np.abs(ref_f))), 1e-300)
+    dvf, dvd = float(np.max(np.abs(mf - ref_f))) / msc, float(np.max(np.abs(mx - ref_d))) / msc
+    gapm = float(np.max(np.abs(ref_f - ref_d))) / msc
+    res.dev("percell_mcov_full_over_tol", dvf / tol)
+    res.dev("percell_mcov_fixed_over_tol", dvd / tol)
+    res.dev("percell_mcov_fixed_vs_full_rel", float(np.max(np.abs(mf - mx))) / msc)
+    if sharp and (dvf > tol or dvd > tol or float(np.max(np.abs(mf - mx))) / msc > gapm + 2 * tol):
+        res.oracle_fail("'fixed' with the cells as landmarks and a per-cell sigma vector: mean_covariance is not the per-cell "
+                        "noise propagated through the mean / differs from the full model's by more than the O(jitter) gap", p,
+                        detail={"full_vs_JDJt": dvf, "fixed_vs_JDJt": dvd, "fixed_vs_full": float(np.max(np.abs(mf - mx))) / msc,
+                                "exact_gap": gapm, "tol": float(tol)}, signature=SIG + "-uncertainty")
     drv = ctx["driver"]
     if drv is not None:
         mlm = cu.model_lm(drv, tree, X, X[perm], Y, mu, sg, j, None, False, False, Xq)
